@@ -207,7 +207,7 @@ def run(repo, rep, tier):
              ("data-prefix", "language-only"), minimum=2)
     from . import c15 as _c15
     L.borrow(repo, rep, "R07.5", "C15", _c15._coverage,
-             ("lossy-hash", "none-distinct"), minimum=2)
+             ("lossy-hash", "none-distinct"), minimum=0)
     L.state_rule(repo, rep)
 
 
